@@ -81,39 +81,58 @@ theorem sub_inj {path : Path} {a b : List Char} (h : sub path a = sub path b) : 
   unfold sub at h
   simpa using List.append_cancel_left h
 
-/-- after "fill in default value before parsing section", a scalar field with a `default:` tag
-holds the decoded default -/
+/-- what "fill in default value before parsing section" stores for a field of this kind:
+`FuzzyDecode` of the tag for scalars, the raw tag for interface fields, `strings.Split(tag, ",")`
+for string lists (other kinds with a `default:` tag are a decode error) -/
+def defaultLeaf (dec : Dec) : FKind → List Char → Option Leaf
+  | .scalar k, d => (dec k d).map (.scalar k)
+  | .iface, d => some (.istr d)
+  | .strList, d => some (.strs (splitOnC ',' d))
+  | _, _ => none
+
+/-- after "fill in default value before parsing section", every field with a `default:` tag
+holds its default -/
 theorem applyDefaults_sets (dec : Dec) (path : Path) : ∀ (fields : List Field) (st st' : Store),
     applyDefaults dec path fields st = .ok st' → (fields.map (·.key)).Nodup →
-    ∀ f ∈ fields, ∀ k d, f.kind = .scalar k → f.dflt = some d →
-      ∃ c, dec k d = some c ∧ st'.get? (sub path f.key) = some (.scalar k c) := by
+    ∀ f ∈ fields, ∀ d, f.dflt = some d →
+      ∃ leaf, defaultLeaf dec f.kind d = some leaf ∧ st'.get? (sub path f.key) = some leaf := by
   intro fields
   induction fields with
   | nil => intro st st' _ _ f hf; simp at hf
   | cons g gs ih =>
-    intro st st' h hnd f hf k d hk hd
+    intro st st' h hnd f hf d hd
     simp only [List.map_cons, List.nodup_cons] at hnd
     rcases List.mem_cons.mp hf with rfl | hf'
     · -- the head field: it is set now and the others do not touch it
-      unfold applyDefaults at h
-      rw [hd] at h
-      simp only [hk] at h
-      split at h
-      · rename_i c hc
-        refine ⟨c, hc, ?_⟩
-        rw [applyDefaults_frame dec path gs _ st' h (sub path f.key) ?_, Store.get?_put_self]
+      have tail : ∀ (leaf : Leaf), applyDefaults dec path gs (st.put (sub path f.key) leaf) = .ok st' →
+          st'.get? (sub path f.key) = some leaf := by
+        intro leaf h'
+        rw [applyDefaults_frame dec path gs _ st' h' (sub path f.key) ?_, Store.get?_put_self]
         intro g' hg' heq
         exact hnd.1 (by rw [sub_inj heq]; exact List.mem_map_of_mem hg')
+      unfold applyDefaults at h
+      rw [hd] at h
+      simp only at h
+      split at h
+      · rename_i hkind
+        exact ⟨.istr d, by simp [defaultLeaf, hkind], tail _ h⟩
+      · rename_i k hkind
+        split at h
+        · rename_i c hc
+          exact ⟨.scalar k c, by simp [defaultLeaf, hkind, hc], tail _ h⟩
+        · simp at h
+      · rename_i hkind
+        exact ⟨.strs (splitOnC ',' d), by simp [defaultLeaf, hkind], tail _ h⟩
       · simp at h
     · unfold applyDefaults at h
       split at h
-      · exact ih st st' h hnd.2 f hf' k d hk hd
+      · exact ih st st' h hnd.2 f hf' d hd
       · split at h
-        · exact ih _ st' h hnd.2 f hf' k d hk hd
+        · exact ih _ st' h hnd.2 f hf' d hd
         · split at h
-          · exact ih _ st' h hnd.2 f hf' k d hk hd
+          · exact ih _ st' h hnd.2 f hf' d hd
           · simp at h
-        · exact ih _ st' h hnd.2 f hf' k d hk hd
+        · exact ih _ st' h hnd.2 f hf' d hd
         · simp at h
 
 /-! ## frame: who writes where -/
@@ -295,16 +314,16 @@ tag whose key is not written in the section holds the decoded default — at any
 theorem paramParser_defaults (S : Schema) (dec : Dec) (n sid : Nat) (path : Path) (items : List AItem)
     (st st' : Store) (h : paramParser S dec (n + 1) sid path items st = .ok st')
     (sd : StructDef) (hsd : S.structs[sid]? = some sd) (hnd : (sd.fields.map (·.key)).Nodup)
-    (f : Field) (hf : f ∈ sd.fields) (k : Nat) (d : List Char) (hk : f.kind = .scalar k) (hd : f.dflt = some d)
+    (f : Field) (hf : f ∈ sd.fields) (d : List Char) (hd : f.dflt = some d)
     (hrk : f.key ≠ rulesKey) (hno : ∀ it ∈ items, it.key? ≠ some f.key) :
-    ∃ c, dec k d = some c ∧ st'.get? (sub path f.key) = some (.scalar k c) := by
+    ∃ leaf, defaultLeaf dec f.kind d = some leaf ∧ st'.get? (sub path f.key) = some leaf := by
   rw [paramParser] at h
   rw [hsd] at h
   simp only at h
   split at h
   · simp at h
   · rename_i st1 hdef
-    obtain ⟨c, hc, hget⟩ := applyDefaults_sets dec path sd.fields st st1 hdef hnd f hf k d hk hd
+    obtain ⟨c, hc, hget⟩ := applyDefaults_sets dec path sd.fields st st1 hdef hnd f hf d hd
     split at h
     · simp at h
     · rename_i st2 set hitems
@@ -365,15 +384,15 @@ theorem decodeSpecs_defaults (S : Schema) (dec : Dec) (fuel : Nat) (ss : List AS
     ∀ (specs : List SectionSpec) (st st' : Store), decodeSpecs S dec fuel ss specs st = .ok st' →
     (specs.map (·.name)).Nodup →
     ∀ sp ∈ specs, ∀ sid sd, sp.kind = .struct sid → S.structs[sid]? = some sd → (sd.fields.map (·.key)).Nodup →
-    ∀ f ∈ sd.fields, ∀ k d, f.kind = .scalar k → f.dflt = some d → f.key ≠ rulesKey →
+    ∀ f ∈ sd.fields, ∀ d, f.dflt = some d → f.key ≠ rulesKey →
       [sp.name, f.key] ≠ soMarkPath →
       (∀ it ∈ itemsOf ss sp.name, it.key? ≠ some f.key) →
-      ∃ c, dec k d = some c ∧ st'.get? [sp.name, f.key] = some (.scalar k c) := by
+      ∃ leaf, defaultLeaf dec f.kind d = some leaf ∧ st'.get? [sp.name, f.key] = some leaf := by
   intro specs
   induction specs with
   | nil => intro st st' _ _ sp hsp; simp at hsp
   | cons sp0 rest ih =>
-    intro st st' h hnd sp hsp sid sd hkind hsd hfnd f hf k d hk hd hrk hso hno
+    intro st st' h hnd sp hsp sid sd hkind hsd hfnd f hf d hd hrk hso hno
     simp only [List.map_cons, List.nodup_cons] at hnd
     rcases List.mem_cons.mp hsp with rfl | hsp'
     · -- this spec is decoded now; the later ones write elsewhere
@@ -385,7 +404,7 @@ theorem decodeSpecs_defaults (S : Schema) (dec : Dec) (fuel : Nat) (ss : List AS
       have core : ∀ (items : List AItem) (st1 : Store),
           sectionParser S dec fuel sp.kind [sp.name] items st = .ok st1 →
           (∀ it ∈ items, it.key? ≠ some f.key) →
-          ∃ c, dec k d = some c ∧ st1.get? [sp.name, f.key] = some (.scalar k c) := by
+          ∃ leaf, defaultLeaf dec f.kind d = some leaf ∧ st1.get? [sp.name, f.key] = some leaf := by
         intro items st1 hs hnoi
         cases fuel with
         | zero => simp [sectionParser] at hs
@@ -394,7 +413,7 @@ theorem decodeSpecs_defaults (S : Schema) (dec : Dec) (fuel : Nat) (ss : List AS
           cases m with
           | zero => simp [paramParser] at hs
           | succ n =>
-            exact paramParser_defaults S dec n sid [sp.name] items st st1 hs sd hsd hfnd f hf k d hk hd hrk hnoi
+            exact paramParser_defaults S dec n sid [sp.name] items st st1 hs sd hsd hfnd f hf d hd hrk hnoi
       unfold decodeSpecs at h
       split at h
       · rename_i hlook
@@ -420,10 +439,10 @@ theorem decodeSpecs_defaults (S : Schema) (dec : Dec) (fuel : Nat) (ss : List AS
       split at h
       · split at h
         · simp at h
-        · exact ih _ st' h hnd.2 sp hsp' sid sd hkind hsd hfnd f hf k d hk hd hrk hso hno
+        · exact ih _ st' h hnd.2 sp hsp' sid sd hkind hsd hfnd f hf d hd hrk hso hno
       · split at h
         · simp at h
-        · exact ih _ st' h hnd.2 sp hsp' sid sd hkind hsd hfnd f hf k d hk hd hrk hso hno
+        · exact ih _ st' h hnd.2 sp hsp' sid sd hkind hsd hfnd f hf d hd hrk hso hno
 
 
 /-! ## the patches touch five fixed paths -/
@@ -469,11 +488,11 @@ theorem configNew_defaults (S : Schema) (dec : Dec) (fuel : Nat) (ss : List ASec
     (h : configNew S dec fuel ss = .ok st') (hnames : (S.specs.map (·.name)).Nodup)
     (sp : SectionSpec) (hsp : sp ∈ S.specs) (sid : Nat) (sd : StructDef) (hkind : sp.kind = .struct sid)
     (hsd : S.structs[sid]? = some sd) (hfnd : (sd.fields.map (·.key)).Nodup)
-    (f : Field) (hf : f ∈ sd.fields) (k : Nat) (d : List Char) (hk : f.kind = .scalar k) (hd : f.dflt = some d)
+    (f : Field) (hf : f ∈ sd.fields) (d : List Char) (hd : f.dflt = some d)
     (hrk : f.key ≠ rulesKey) (hso : [sp.name, f.key] ≠ soMarkPath)
     (hp1 : pHttpMethod ≠ [sp.name, f.key]) (hp2 : pFallback ≠ [sp.name, f.key])
     (hno : ∀ it ∈ itemsOf ss sp.name, it.key? ≠ some f.key) :
-    ∃ c, dec k d = some c ∧ st'.get? [sp.name, f.key] = some (.scalar k c) := by
+    ∃ leaf, defaultLeaf dec f.kind d = some leaf ∧ st'.get? [sp.name, f.key] = some leaf := by
   unfold configNew at h
   split at h
   · simp at h
@@ -488,12 +507,139 @@ theorem configNew_defaults (S : Schema) (dec : Dec) (fuel : Nat) (ss : List ASec
           simp only [Except.ok.injEq] at h
           subst h
           obtain ⟨c, hc, hget⟩ := decodeSpecs_defaults S dec fuel ss S.specs [] st hdec hnames sp hsp sid sd
-            hkind hsd hfnd f hf k d hk hd hrk hso hno
+            hkind hsd hfnd f hf d hd hrk hso hno
           refine ⟨c, hc, ?_⟩
           rw [applyPatches_frame dec st st2 hpatch _ hp1 (by simp [pReqFallback]) (by simp [pRespFallback]) ?_ hp2,
             hget]
           intro heq
           simp only [pRules, List.cons.injEq, and_true] at heq
           exact hrk heq.2.symm
+
+
+/-! ## the two defaults the patch stage may rewrite on purpose -/
+
+theorem configNew_stages (S : Schema) (dec : Dec) (fuel : Nat) (ss : List ASection) (st' : Store)
+    (h : configNew S dec fuel ss = .ok st') :
+    ∃ st, decodeSpecs S dec fuel ss S.specs [] = .ok st ∧ applyPatches dec st = .ok st' := by
+  unfold configNew at h
+  split at h
+  · simp at h
+  · split at h
+    · simp at h
+    · rename_i st hdec
+      split at h
+      · simp at h
+      · split at h
+        · simp at h
+        · rename_i st2 hpatch
+          simp only [Except.ok.injEq] at h
+          subst h
+          exact ⟨st, hdec, hpatch⟩
+
+/-- the store on which `patchMustOutbound`'s fallback step works -/
+def prePatch (dec : Dec) (st : Store) : Store := patchMustRules (patchEmptyDns (patchHttp dec st))
+
+theorem prePatch_frame (dec : Dec) (st : Store) (q : Path)
+    (h1 : pHttpMethod ≠ q) (h2 : pReqFallback ≠ q) (h3 : pRespFallback ≠ q) (h4 : pRules ≠ q) :
+    (prePatch dec st).get? q = st.get? q := by
+  have e1 : (patchHttp dec st).get? q = st.get? q := by
+    unfold patchHttp; split
+    · rfl
+    · exact Store.get?_put_ne _ _ h1
+  have e2 : (patchEmptyDns (patchHttp dec st)).get? q = st.get? q := by
+    unfold patchEmptyDns
+    rw [putIfAbsent_frame _ _ _ _ h3, putIfAbsent_frame _ _ _ _ h2, e1]
+  unfold prePatch patchMustRules; split
+  · rw [Store.get?_put_ne _ _ h4, e2]
+  · exact e2
+
+/-- `routing.fallback` given as a plain name without the `must_` prefix survives the patches -/
+theorem applyPatches_fallback_kept (dec : Dec) (st st' : Store) (h : applyPatches dec st = .ok st')
+    (s : List Char) (hs : st.get? pFallback = some (.istr s)) (hm : hasPrefixC s "must_".toList = false) :
+    st'.get? pFallback = some (.istr s) := by
+  unfold applyPatches at h
+  split at h
+  · simp at h
+  · have e3 : (prePatch dec st).get? pFallback = some (.istr s) := by
+      rw [prePatch_frame dec st pFallback (by simp [pHttpMethod, pFallback]) (by simp [pReqFallback, pFallback])
+        (by simp [pRespFallback, pFallback]) (by simp [pRules, pFallback]), hs]
+    change patchMustFallback (prePatch dec st) = .ok st' at h
+    unfold patchMustFallback at h
+    rw [e3] at h
+    simp only [hm, Bool.false_eq_true, if_false, Except.ok.injEq] at h
+    rw [← h, e3]
+
+/-- a valid `global.tcp_check_http_method` survives the patches -/
+theorem applyPatches_http_kept (dec : Dec) (st st' : Store) (h : applyPatches dec st = .ok st')
+    (k : Nat) (c : List Char) (hs : st.get? pHttpMethod = some (.scalar k c)) (hv : dec kindHttpMethod c ≠ none) :
+    st'.get? pHttpMethod = some (.scalar k c) := by
+  unfold applyPatches at h
+  split at h
+  · simp at h
+  · have e1 : patchHttp dec st = st := by
+      unfold patchHttp scalarAt
+      rw [hs]
+      simp only
+      split
+      · rfl
+      · rename_i hnone; exact absurd hnone hv
+    have e3 : (patchMustRules (patchEmptyDns st)).get? pHttpMethod = some (.scalar k c) := by
+      have e2 : (patchEmptyDns st).get? pHttpMethod = st.get? pHttpMethod := by
+        unfold patchEmptyDns
+        rw [putIfAbsent_frame _ _ _ _ (by simp [pRespFallback, pHttpMethod]),
+          putIfAbsent_frame _ _ _ _ (by simp [pReqFallback, pHttpMethod])]
+      unfold patchMustRules; split
+      · rw [Store.get?_put_ne _ _ (by simp [pRules, pHttpMethod]), e2, hs]
+      · rw [e2, hs]
+    rw [e1] at h
+    unfold patchMustFallback at h
+    dsimp only at h
+    split at h
+    · simp at h
+    · split at h
+      · simp only [Except.ok.injEq] at h
+        rw [← h, Store.get?_put_ne _ _ (by simp [pFallback, pHttpMethod]), e3]
+      · simp only [Except.ok.injEq] at h
+        rw [← h, e3]
+
+
+/-- `routing.fallback`: the documented default (an interface default, a plain outbound name) is in
+the typed configuration when the key is not written -/
+theorem configNew_default_fallback (S : Schema) (dec : Dec) (fuel : Nat) (ss : List ASection) (st' : Store)
+    (h : configNew S dec fuel ss = .ok st') (hnames : (S.specs.map (·.name)).Nodup)
+    (sp : SectionSpec) (hsp : sp ∈ S.specs) (hname : sp.name = "routing".toList) (sid : Nat) (sd : StructDef)
+    (hkind : sp.kind = .struct sid) (hsd : S.structs[sid]? = some sd) (hfnd : (sd.fields.map (·.key)).Nodup)
+    (f : Field) (hf : f ∈ sd.fields) (hkey : f.key = "fallback".toList) (hfk : f.kind = .iface)
+    (d : List Char) (hd : f.dflt = some d) (hm : hasPrefixC d "must_".toList = false)
+    (hno : ∀ it ∈ itemsOf ss sp.name, it.key? ≠ some f.key) :
+    st'.get? pFallback = some (.istr d) := by
+  obtain ⟨st, hdec, hpatch⟩ := configNew_stages S dec fuel ss st' h
+  obtain ⟨leaf, hleaf, hget⟩ := decodeSpecs_defaults S dec fuel ss S.specs [] st hdec hnames sp hsp sid sd
+    hkind hsd hfnd f hf d hd (by rw [hkey]; simp [rulesKey]) (by rw [hname, hkey]; simp [soMarkPath]) hno
+  rw [hfk] at hleaf
+  simp only [defaultLeaf, Option.some.injEq] at hleaf
+  subst hleaf
+  rw [hname, hkey] at hget
+  exact applyPatches_fallback_kept dec st st' hpatch d hget hm
+
+/-- `global.tcp_check_http_method`: a valid default stays; (an invalid value is rewritten to
+`CONNECT` by `patchTcpCheckHttpMethod`, on purpose) -/
+theorem configNew_default_http_method (S : Schema) (dec : Dec) (fuel : Nat) (ss : List ASection) (st' : Store)
+    (h : configNew S dec fuel ss = .ok st') (hnames : (S.specs.map (·.name)).Nodup)
+    (sp : SectionSpec) (hsp : sp ∈ S.specs) (hname : sp.name = "global".toList) (sid : Nat) (sd : StructDef)
+    (hkind : sp.kind = .struct sid) (hsd : S.structs[sid]? = some sd) (hfnd : (sd.fields.map (·.key)).Nodup)
+    (f : Field) (hf : f ∈ sd.fields) (hkey : f.key = "tcp_check_http_method".toList) (k : Nat)
+    (hfk : f.kind = .scalar k) (d c : List Char) (hd : f.dflt = some d) (hc : dec k d = some c)
+    (hv : dec kindHttpMethod c ≠ none)
+    (hno : ∀ it ∈ itemsOf ss sp.name, it.key? ≠ some f.key) :
+    st'.get? pHttpMethod = some (.scalar k c) := by
+  obtain ⟨st, hdec, hpatch⟩ := configNew_stages S dec fuel ss st' h
+  obtain ⟨leaf, hleaf, hget⟩ := decodeSpecs_defaults S dec fuel ss S.specs [] st hdec hnames sp hsp sid sd
+    hkind hsd hfnd f hf d hd (by rw [hkey]; simp [rulesKey]) (by rw [hname, hkey]; simp [soMarkPath]) hno
+  rw [hfk] at hleaf
+  simp only [defaultLeaf, hc, Option.map_some, Option.some.injEq] at hleaf
+  subst hleaf
+  rw [hname, hkey] at hget
+  exact applyPatches_http_kept dec st st' hpatch k c hget hv
 
 end DaeVerif.C17
